@@ -206,8 +206,13 @@ def validate_traces(traces, module='Trace_EAOModel', timeout=1800, keep=None, sp
 def portfolio_trace(portf, op, res, out, K=1000, tol=5, chk=('balance', 'accounting')):
     """trace for Trace_Portfolio (any asset types): reported dispatch per (asset, node, step), the dispatch implied by x
     through the mapping, the DCF table, -c_a.x_a and the value"""
-    nodes = list(portf.nodes.keys())
     assets = portf.assets
+    # the nodes are those the assets were DECLARED with (not the portfolio's own table of nodes, which is part of what is being checked)
+    nodes = []
+    for a in assets:
+        for n in a.node_names:
+            if n not in nodes:
+                nodes.append(n)
     T = portf.timegrid.T
     m = op.mapping
     x = np.asarray(res.x, float)
@@ -228,7 +233,9 @@ def portfolio_trace(portf, op, res, out, K=1000, tol=5, chk=('balance', 'account
         for i, a in enumerate(assets):
             rf = []
             for n in nodes:
-                col = (a.name + ' (' + n + ')') if multi else a.name
+                col = a.name + ' (' + n + ')'
+                if col not in disp.columns and len(a.node_names) == 1:
+                    col = a.name          # (the report drops the node from the column name when the portfolio has one node only)
                 rf.append(fx(disp[col].iloc[t], K) if (col in disp.columns and n in a.node_names) else 0)
             ev['rflow'].append(rf)
             ev['xflow'].append([fx(xflow[i, j, t], K) for j in range(len(nodes))])
